@@ -41,9 +41,18 @@ def _optb(v):
     return "_" if v is None else hx(v.encode())
 
 
+# variables that must NOT matter to the detection (what a program started from a tmux / screen pane, or a terminal window started
+# from such a pane, finds in its environment besides TMUX and TERM); a case names some of them with a value or None (= unset)
+OTHER_VARS = ["TERM_PROGRAM", "TERM_PROGRAM_VERSION", "TMUX_PANE", "STY", "TMUX_TMPDIR", "COLORTERM", "LC_TERMINAL", "TERMINFO",
+              "TERMCAP", "WINDOW", "TMUX_PLUGIN_MANAGER_PATH", "TERM_SESSION_ID"]
+
+
 class _env:
-    def __init__(self, tmux, term):
+    def __init__(self, tmux, term, other=None):
         self.set = {"TMUX": tmux, "TERM": term}
+        if other is not None:
+            self.set.update({k: None for k in OTHER_VARS})
+            self.set.update(other)
 
     def __enter__(self):
         self.old = {k: os.environ.get(k) for k in self.set}
@@ -61,17 +70,17 @@ class _env:
                 os.environ[k] = v
 
 
-def site_terminal(tmux, term, cur):
+def site_terminal(tmux, term, cur, other=None):
     """GraphicsTerminal.detect_tmux with the given environment; returns the resulting num_tmux_layers."""
     from tupimage import graphics_terminal as gt
     t = gt.GraphicsTerminal(out_command=io.BytesIO(), out_display=io.BytesIO(), in_response=io.BytesIO(), in_userinput=io.BytesIO(),
                             num_tmux_layers=cur)
-    with _env(tmux, term):
+    with _env(tmux, term, other):
         t.detect_tmux()
     return t.num_tmux_layers
 
 
-def site_config(tmux, term, cfg):
+def site_config(tmux, term, cfg, other=None):
     """TupimageTerminal(num_tmux_layers=cfg) constructed in a pty child (it opens /dev/tty).
     Returns (config value after construction, GraphicsTerminal.num_tmux_layers, template hex) or an error string."""
     r, w = os.pipe()
@@ -86,7 +95,8 @@ def site_config(tmux, term, cfg):
                     del os.environ[k]
             os.environ["HOME"] = td
             os.environ["XDG_CONFIG_HOME"] = td
-            for k, v in (("TMUX", tmux), ("TERM", term)):
+            others = [] if other is None else [(k, other.get(k)) for k in sorted(set(OTHER_VARS) | set(other))]
+            for k, v in [("TMUX", tmux), ("TERM", term)] + others:
                 if v is None:
                     os.environ.pop(k, None)
                 else:
@@ -311,12 +321,17 @@ def check_case(ctx: Ctx, c: dict):
                 break
     elif k == "env":
         tmux, term, cur, cfg = c["tmux"], c["term"], c["cur"], c["cfg"]
+        # the rest of the environment (None = as the harness found it): the outcome is the function of TMUX and TERM alone
+        other = c.get("other")
+        if other is not None:
+            for name, v in sorted(other.items()):
+                ctx.count("other-env:%s:%s" % (name, "unset" if v is None else "names-tmux-or-screen" if ("tmux" in v.lower() or "screen" in v.lower()) else "set"))
         spec = d.ask(f"spec_detect {_optb(tmux)} {_optb(term)}") == "1"
         model = d.ask(f"detect {_optb(tmux)} {_optb(term)} {cur} {cfg}").split(" ")
         ctx.count("spec-detects:%s" % spec)
         ctx.count("TMUX:" + ("unset" if tmux is None else "empty" if tmux == "" else "set"))
         # site 1: GraphicsTerminal.detect_tmux
-        a = site_terminal(tmux, term, cur)
+        a = site_terminal(tmux, term, cur, other)
         ctx.eq("GraphicsTerminal.detect_tmux", c, str(a), model[1])
         if (a > 0) != spec:
             ctx.violation("GraphicsTerminal.detect_tmux disagrees with the rule TMUX set and TERM names screen or tmux", c,
@@ -325,7 +340,7 @@ def check_case(ctx: Ctx, c: dict):
             ctx.violation("detect_tmux lost the configured number of layers", c, {"layers": a, "configured": cur}, key="c11-detect-layers")
         # site 2: TupimageTerminal.__init__
         if c.get("site2", True):
-            r = site_config(tmux, term, cfg)
+            r = site_config(tmux, term, cfg, other)
             parts = r.split(" ")
             if len(parts) != 3 or not parts[0].isdigit():
                 from .common import ToolFailure
@@ -583,6 +598,32 @@ def cases(ctx: Ctx):
                 i += 1
                 yield {"k": "env", "tmux": tm, "term": te, "cur": cur, "cfg": cfg, "site2": True}
             yield {"k": "env", "tmux": tm, "term": te, "cur": rng.choice([1, 2, 4]), "cfg": "auto", "site2": False}
+    # the same table crossed with the variables that must not matter: each alone naming tmux / screen, typical inherited sets
+    # (a kitty / xterm window started from a tmux >= 3.2 pane keeps TMUX, TMUX_PANE, TERM_PROGRAM=tmux and sets its own TERM;
+    # a screen window has STY and TERM=screen*), everything at once, and everything unset
+    tmv = "/tmp/tmux-1000/default,3186,0"
+    singles = [{"TERM_PROGRAM": "tmux"}, {"TERM_PROGRAM": "screen"}, {"TERM_PROGRAM": "tmux-256color"}, {"TERM_PROGRAM": "WezTerm"},
+               {"TERM_PROGRAM": ""}, {"TERM_PROGRAM_VERSION": "tmux 3.4"}, {"TMUX_PANE": "%3"}, {"TMUX_PANE": "tmux"},
+               {"STY": "1234.pts-0.screen"}, {"TMUX_TMPDIR": "/tmp/tmux-1000"}, {"COLORTERM": "tmux"}, {"COLORTERM": "truecolor"},
+               {"LC_TERMINAL": "tmux-256color"}, {"LC_TERMINAL": "screen"}, {"TERMINFO": "/usr/share/terminfo/s/screen"},
+               {"TERMCAP": "SC|screen|VT 100/ANSI X3.64 virtual terminal"}, {"WINDOW": "0"}, {"TMUX_PLUGIN_MANAGER_PATH": "/home/u/.tmux/plugins"},
+               {"TERM_SESSION_ID": "tmux-screen"}]
+    sets = [{}, {"TMUX_PANE": "%3", "TERM_PROGRAM": "tmux", "TERM_PROGRAM_VERSION": "3.4"},
+            {"STY": "4242.tty1.host", "WINDOW": "2", "TERMCAP": "SC|screen-256color|tmux", "TERM_PROGRAM": "screen"},
+            {"TERM_PROGRAM": "WezTerm", "COLORTERM": "truecolor", "TERM_PROGRAM_VERSION": "20240203"},
+            {k: "tmux screen" for k in OTHER_VARS}]
+    terms2 = [None, "", "xterm-256color", "xterm-kitty", "screen", "screen-256color", "tmux", "tmux-256color", "linux"]
+    for other in sets + singles:
+        full = other in sets
+        for tm in [None, "", tmv]:
+            tes = terms2 if not quick else [None, "", "xterm-256color", "xterm-kitty", "screen-256color", "tmux"] if full else \
+                [rng.choice([None, "xterm-kitty", "xterm-256color", "linux"]), rng.choice(["screen-256color", "tmux-256color", "screen", "tmux"])]
+            for te in tes:
+                both = True
+                yield {"k": "env", "tmux": tm, "term": te, "cur": rng.choice([0, 0, 1, 3]), "cfg": "auto", "site2": both, "other": dict(other)}
+        # explicitly configured layer counts stay what they are
+        yield {"k": "env", "tmux": tmv, "term": rng.choice(["xterm-kitty", "tmux-256color"]), "cur": rng.choice([0, 2]), "cfg": rng.choice([0, 1, 2, 4]),
+               "site2": True, "other": dict(other)}
     # (4) supporting: real tmux as an oracle of the unwrapping specification
     if not quick:
         for desc in [{"type": "T", "f": {"image_id": 5, "medium": "DIRECT"}, "data": {"hex": "00ff1b1b5c"}},
@@ -596,7 +637,9 @@ def run(ctx: Ctx):
                 "0..4 layers (to_bytes); chunked transmissions for 8 header shapes x limits around the first accepted one x payload "
                 "lengths around the chunk size through n layers against 0 layers with the same payload budget; environment table "
                 "TMUX in {unset, empty, value} x 20 TERM values x configured layers through GraphicsTerminal.detect_tmux and a "
-                "pty-hosted TupimageTerminal; send_command sequences with the layer count reconfigured in between (assignment, "
+                "pty-hosted TupimageTerminal; the same table crossed with variables that must not matter (TERM_PROGRAM, TERM_PROGRAM_VERSION, "
+                "TMUX_PANE, STY, TMUX_TMPDIR, COLORTERM, LC_TERMINAL, TERMINFO, TERMCAP, WINDOW ... each alone naming tmux / screen, typical "
+                "inherited sets, all at once, all unset) at both sites; send_command sequences with the layer count reconfigured in between (assignment, "
                 "detect_tmux, clone_with incl. 0 and None) from every start count to every target count, each emission judged against "
                 "the count the caller configured; the same sequences with the optional features sharing the send path on (shell-script "
                 "logging to a StringIO, force_placeholders with commands that need no placeholder printed, force_direct_transmission of "
